@@ -64,6 +64,14 @@ def gen_cases(c, rng, shard):
     if c.xfer in ("alloc", "read", "write", "allocarg"):
         for a in harness.huge_cases(c, rng):
             yield "huge", a
+    if c.xfer in ("alloc", "allocarg") and not c.custom:
+        # an allocation length for which the process has no memory (a 32-bit length in a small container): either the request is
+        # refused with MemoryError or the CDB says what was asked -- really allocated, not through the length-only stand-in
+        for k, spec in c.args.items():
+            if spec[0] == "alloc" and spec[1] >= 32:
+                a = harness.random_args(c, rng, cap=2048)
+                a[k] = rng.choice([0xFFFFFFF0, 0xC0000000, 0xFFFFFFFF])
+                yield "unallocatable", a
     bname = next((k for k, spec in c.args.items() if spec[0] == "blockdata"), None)
     if bname:
         # WRITE SAME prepared without its block (attached later with cmd.dataout = ...): the flags in the CDB are the caller's
@@ -132,6 +140,12 @@ def run_one(ctx, c, setname, kind, a, do_facade, transports):
     # -- constructor
     try:
         cmd = harness.construct(c, setname, DO.fresh(a) if c.custom else a)
+    except MemoryError:
+        if kind == "unallocatable":
+            ctx.count("unallocatable_requests_refused")
+            ctx.case(("ctor",) + rep, True)
+            return
+        raise
     except Exception as e:  # noqa: BLE001
         ctx.case(("ctor",) + rep, nontriv)
         ctx.fail("C01:%s.constructor_raises.%s" % (c.name, type(e).__name__),
